@@ -96,6 +96,25 @@ func c20Run(c *mc.Ctx, k c20Case) {
 				b[0] ^= 0x55
 				if s[0] != b[0] {
 					bad("copy", "write through the slice is not visible through the string")
+					return
+				}
+				b[0] ^= 0x55
+				if k.Mem == "" {
+					// the same bytes in ANOTHER buffer, converted right afterwards: each result shares memory with its own
+					// argument (no result is remembered and handed out again for equal content)
+					back2 := c20Content(k.N)
+					b2 := back2[k.I:k.J:k.K]
+					s2 := unsafex.BinaryToString(b2)
+					if unsafe.StringData(s2) != &b2[0] || s2 != want {
+						bad("copy", "an equal value converted from another buffer right afterwards does not share memory with ITS argument")
+						return
+					}
+					for i := range back {
+						back[i] = 'x' // the first buffer is reused
+					}
+					if s2 != want {
+						bad("content", "the second result changed when the FIRST buffer was overwritten")
+					}
 				}
 			}
 		case "s2b":
